@@ -192,13 +192,22 @@ func c16Trees() []histCase {
 		"failing2":     "line1\n@if(flag)\n{{ missing.prop }}\n@end",
 		"inloop":       "@each(i in items)<{{ i }}>@if(i == 2){{ 1 / 0 }}@end@end",
 		"errpage":      "<h1>custom error page</h1>",
+		// pages that bind names at template level, and pages that would see them if a
+		// render left anything behind (the second fails alone, the third binds another type)
+		"setsT":    "{{ t0 = \"Home\" }}<h1>{{ t0 }}</h1>{{ cnt = 1 }}{{ cnt }}",
+		"readsT":   "<h1>{{ t0 }}</h1>",
+		"retypesT": "{{ t0 = 3 }}<b>{{ t0 + 1 }}</b>{{ cnt = \"one\" }}",
 	}
+	empty := &spec.Data{}
 	ops := []histOp{
 		{Kind: "string", Name: "home", Data: d}, {Kind: "string", Name: "plain", Data: d}, {Kind: "string", Name: "failing", Data: d},
 		{Kind: "string", Name: "failing2", Data: d}, {Kind: "string", Name: "nosuch", Data: d}, {Kind: "response", Name: "home", Data: d},
 		{Kind: "response", Name: "failing", Data: d}, {Kind: "response", Name: "inloop", Data: d}, {Kind: "response", Name: "nosuch", Data: nil},
 		{Kind: "evalstring", Src: "{{ 1 + 2 }} {{ name }}", Data: d}, {Kind: "evalstring", Src: "{{ nope }}", Data: nil},
 		{Kind: "evalfile", Name: "plain", Data: d}, {Kind: "evalfile", Name: "failing", Data: d}, {Kind: "string", Name: "home", Data: nil},
+		{Kind: "string", Name: "setsT", Data: nil}, {Kind: "string", Name: "readsT", Data: nil}, {Kind: "string", Name: "retypesT", Data: nil},
+		{Kind: "response", Name: "setsT", Data: empty}, {Kind: "response", Name: "readsT", Data: empty}, {Kind: "string", Name: "setsT", Data: d},
+		{Kind: "evalfile", Name: "setsT", Data: nil}, {Kind: "evalstring", Src: "{{ t0 }}", Data: nil},
 	}
 	return []histCase{
 		{Files: files, Ops: ops},
@@ -215,7 +224,7 @@ func c16NonTrivial(cs histCase) bool {
 	seenEval := false
 	for _, oi := range cs.History {
 		op := cs.Ops[oi]
-		failing := strings.Contains(op.Name, "failing") || op.Name == "inloop" || op.Name == "nosuch"
+		failing := strings.Contains(op.Name, "failing") || op.Name == "inloop" || op.Name == "nosuch" || op.Name == "readsT"
 		if seenEval && failing && (op.Kind == "string" || op.Kind == "response") {
 			return true
 		}
@@ -229,7 +238,7 @@ func c16NonTrivial(cs histCase) bool {
 func TestC16_HistoriesEnum(t *testing.T) {
 	maxLen := harness.Pick(2, 3)
 	c := harness.New(t, "C16", "histories-enum",
-		fmt.Sprintf("every history of length <= %d (2 quick, 3 thorough) over 14 operation instances {String, Response, EvaluateString, EvaluateFile} x {succeeding, failing at run time, not found} on a template directory with layout, component, loops and objects, under up to 6 configurations (debug on/off x no / working / missing / failing custom error page). Each operation's result (output, or error message + line + path, Response body + returned error) must equal the result of the same operation issued first after a fresh load; afterwards all operations still give their baselines, the configuration is unchanged and the caller's data is deep-equal to a copy. Non-trivial: a failing render or failing Response after a string/file evaluation or an error page. Distinct by construction.", maxLen))
+		fmt.Sprintf("every history of length <= %d (2 quick, 3 thorough) over 22 operation instances {String, Response, EvaluateString, EvaluateFile} x {succeeding, failing at run time, not found} on a template directory with layout, component, loops and objects, under up to 6 configurations (debug on/off x no / working / missing / failing custom error page). Each operation's result (output, or error message + line + path, Response body + returned error) must equal the result of the same operation issued first after a fresh load; afterwards all operations still give their baselines, the configuration is unchanged and the caller's data is deep-equal to a copy. Non-trivial: a failing render or failing Response after a string/file evaluation or an error page. Distinct by construction.", maxLen))
 	defer c.Finish()
 	trees := c16Trees()
 	ntrees := len(trees)
@@ -268,7 +277,7 @@ func TestC16_HistoriesEnum(t *testing.T) {
 		}
 		rec(nil)
 	}
-	c.ExhaustivePart(fmt.Sprintf("all histories of length <= %d over 14 operations x %d configurations", maxLen, ntrees))
+	c.ExhaustivePart(fmt.Sprintf("all histories of length <= %d over 22 operations x %d configurations", maxLen, ntrees))
 }
 
 func TestC16_HistoriesRandom(t *testing.T) {
